@@ -20,6 +20,22 @@ man = {
     "not_applicable": json.load(open(os.path.join(VERIF, 'lib', 'na.json'))),
 }
 all_ids = [json.loads(l)['id'] for l in open(os.path.join(VERIF, 'properties.jsonl'))]
+
+
+def technique_of(c):
+    """The deciding method, composed from what the property's quick and thorough tiers actually run."""
+    specs = list(c['quick']) + list(c['thorough'])
+    labels = ' '.join(str(sp.get('label', '')) for sp in specs)
+    parts = []
+    if any(sp.get('kind') != 'custom' and not str(sp.get('label', '')).startswith('sideB') for sp in specs):
+        parts.append('side A: bounded symbolic execution of Wire\'s own functions from go/ssa, branches and assertions decided by SMT (z3), counterexamples replayed natively')
+    if 'sideB' in labels:
+        parts.append('side B: translation validation - the injectors the real wire binary generates for an enumerated program family are executed symbolically (provider behaviour and fault schedules are solver variables; the accept/reject verdict and the compile step per program are concrete runs)')
+    if 'cli_e2e' in labels:
+        parts.append('supplement, NOT solver-decided: enumerated runs of the real binary (lib/cli_e2e.py)')
+    if c.get('bounds_text', '').find('supplement (enumerated runs') >= 0:
+        parts.append('supplement, NOT solver-decided: enumerated repeat / moved / alone / GOPATH+vendor / header runs of the real binary over the side-B corpus')
+    return '; '.join(parts)
 for pid in all_ids:
     if pid not in P.PROPS:
         continue
@@ -33,7 +49,7 @@ for pid in all_ids:
         "engine": "gosym",
         "level_claimed": {"category": c['level'], "text": c.get('level_text', 'bounded symbolic model checking of the implementation: the anchor functions are executed from their SSA with symbolic inputs; every branch is decided by z3, every assertion is a validity query over the path condition; holds for all inputs within the stated bounds: ' + c.get('bounds_text', '')), "design_ref": c.get('design_ref', 'DESIGN.md §0 (row %s), §3, §4, §10' % pid)},
         "level_note": 'Assumed/trusted: ' + '; '.join(c.get('assumptions', [])) + '. Outside the claim: ' + c.get('outside', ''),
-        "technique": c.get('technique', 'SSA symbolic execution + SMT (z3), bounded'),
+        "technique": technique_of(c),
     })
 claimed = {c['property_id'] for c in man['checks']}
 man['not_applicable'] = [n for n in man['not_applicable'] if n['property_id'] not in claimed]
